@@ -625,7 +625,7 @@ def kron_case(draw, tier):
     if family == "process":
         # unit cost of one |HS>>x|HS>> permutation grows like d^8: d=4 0.1 s, d=6 0.6 s, d=8 2 s, d=9 5 s
         heavy = draw(st.integers(0, 19 if tier == "quick" else 11))
-        if heavy == 0:
+        if heavy == 0 and tier != "quick":  # two qutrits (5 s per |HS>>x|HS>> permutation): thorough tier only
             dims = [3, 3]
         elif heavy <= (4 if tier == "quick" else 3):
             dims = [2, 2, 2]
@@ -652,7 +652,8 @@ def kron_case(draw, tier):
         return {"family": family, "dims": dims, "names": draw(_names(k)), "factors": factors,
                 "style": draw(st.sampled_from(["flat", "list"]))}
     # d = 36 (2x2x3x3 in some order) costs ~15 s per case (an SVD rank test of a 1296^2 matrix per composite system): rare
-    big = family != "ensemble" and draw(st.integers(0, 23 if tier == "quick" else 11)) == 0
+    # (thorough tier only: one such case with all its groupings takes more than a minute)
+    big = tier != "quick" and family != "ensemble" and draw(st.integers(0, 11)) == 0
     if big:
         dims = draw(st.sampled_from(DIMS_36))
     else:
@@ -1145,7 +1146,7 @@ FACETS = {
     "kron_order": {
         "strategy": kron_case,
         "check": check_kron_order,
-        "budget": {"quick": {"examples": 640, "shards": 8}, "thorough": {"examples": 4000, "shards": 16}},
+        "budget": {"quick": {"examples": 320, "shards": 16}, "thorough": {"examples": 4000, "shards": 16}},
         "nontrivial": "names not ascending and (k >= 3 or different outcome counts or dims 2/3 mixed), at least one grouping "
                       "evaluated; basis family: k >= 3 or mixed dims",
         "min_nontrivial": 40,
@@ -1161,21 +1162,21 @@ FACETS = {
     "product_statistics": {
         "strategy": stats_case,
         "check": check_product_statistics,
-        "budget": {"quick": {"examples": 500, "shards": 2}, "thorough": {"examples": 6000, "shards": 16}},
+        "budget": {"quick": {"examples": 400, "shards": 4}, "thorough": {"examples": 6000, "shards": 16}},
         "nontrivial": "at least one of the products (state, gate, mprocess, POVM) is formed with arguments not in ascending name",
         "min_nontrivial": 30,
     },
     "factorwise_action": {
         "strategy": factorwise_case,
         "check": check_factorwise,
-        "budget": {"quick": {"examples": 500, "shards": 2}, "thorough": {"examples": 6000, "shards": 16}},
+        "budget": {"quick": {"examples": 400, "shards": 4}, "thorough": {"examples": 6000, "shards": 16}},
         "nontrivial": "arguments not in ascending name and (entangled input or k >= 3 or mixed dims or a measurement process factor)",
         "min_nontrivial": 30,
     },
     "embedding": {
         "strategy": embedding_case,
         "check": check_embedding,
-        "budget": {"quick": {"examples": 390, "shards": 3}, "thorough": {"examples": 4000, "shards": 16}},
+        "budget": {"quick": {"examples": 300, "shards": 6}, "thorough": {"examples": 4000, "shards": 16}},
         "nontrivial": "every case (generated physical qutrit object, generated embedded input and probe POVM)",
         "min_nontrivial": 30,
     },
